@@ -1,5 +1,7 @@
 import MmtkModel.Model.FreeList
 import MmtkModel.Spec.Runs
+import MmtkModel.Lemmas.FreeListFree
+import MmtkModel.Lemmas.FreeListNew
 /-!
 # C26 — Free lists allocate disjoint runs and coalesce back completely
 
@@ -14,10 +16,34 @@ remaining boundary carries an uncoalescable mark or is a pristine initial grain 
 marks and `grain = units` the single initial run is restored exactly (`free_all_restores_single_run`).
 
 **Concrete** (`Mmtk.FreeList`, the table with its masks; exact differential against both
-implementations): entry-level lemmas are proved here (`enc`/`dec`, link and size fields survive the
-flag updates).  The whole-history refinement `history_refines` (under the table invariant `WF`, each
-concrete op returns what `Runs.Pre` allows and commutes with the abstraction) is **not** proved;
-target statement at the end of the file.
+implementations): the refinement to `Mmtk.Runs` is **proved** (second half of this file; lemmas in
+`Lemmas/FreeList{Bits,Tab,Links,Rel,Split,Alloc,Free}.lean` and `Lemmas/RunsChar.lean`).  `Rel t a L`
+is the table invariant + abstraction relation (sentinels, MULTI/size entries at both ends of every
+run, FREE flag, uncoalescable bits, one well-formed circular doubly-linked list per head holding
+exactly the free runs of that head — ghost lists `L`); `Abs H t a := t.heads = H ∧ ∃ L, Rel t a L`,
+`WF H t := ∃ a, Abs H t a`.  For every operation the protocol `Runs.Pre` allows, in both `debug`
+settings: the method returns `.ok`, the answer is allowed by the abstract spec, the new table
+represents `Runs.apply a op` — `alloc_refines` (first fit; `FAILURE` only if no run of the head fits,
+table unchanged), `allocFromUnit_refines`, `free_refines` (coalesces exactly with the neighbours
+`mergeL` / `mergeR` name; returned size), `setUnc_refines`, `clrUnc_refines`.  `step_refines`,
+`history_refines`: every protocol-respecting concrete history (`CReach`) is an abstract history
+(`Runs.Reach`) and keeps `Abs`; corollaries `concrete_history_no_overlap`,
+`concrete_history_conservation`; `abs_reads`: `get_size` / `get_free` of the table are the abstract
+run length / ownership.  A concrete instance (`IntArrayFreeList::new(6, 3, 2)`, `exRel`) shows the
+hypotheses satisfiable.
+
+`new_refines_single`: `IntArrayFreeList::new(N, N, heads)` (a single initial run) establishes `Abs` with a
+`Fresh` abstract state, for all `1 ≤ N ≤ MAX_UNITS`, `1 ≤ heads ≤ 128`.
+
+Not proved (what is left): (i) that `IntArrayFreeList::new(units, grain, heads)` with `grain < units`
+(several initial runs: the fill loop) and `RawMemoryFreeList` growth establish `Abs` with a `Fresh`
+abstract state for all parameters (for `grain < units` only the instance `new(6, 3, 2)` is checked;
+the constructors are covered by the differential); (ii) `abs` is a
+relation, not a function — the ghost `touched` and the owner of a free run (= the head whose list
+reaches it) are not fields of the table; (iii) unit numbers are unbounded `Int` in the model: the
+`i32` wrap is excluded by `units ≤ MAX_UNITS` in `Rel`, not modelled; (iv) `alloc_from_unit` on a
+run that is free on *another* head's list and on a non-run-start unit is outside the protocol
+(`cross_head_coalesce_double_allocates` shows what happens when heads are mixed).
 -/
 namespace Mmtk.Runs
 
@@ -421,18 +447,273 @@ theorem getNext_setNext (t : Tab) (head u : Int) (next : Nat) (old : Nat)
   · cases hold
 
 /-!
-## Target of the concrete layer (not proved — named here so that the gap is explicit)
+## The concrete layer: the table refines `Mmtk.Runs`
 
-`theorem history_refines_partial` would be: for `WF t` (sentinels intact; every run's size / multi /
-free flags consistent at both ends; each head's list a well-formed circular doubly-linked list of
-exactly the runs `own = some k`), every concrete `alloc / allocFromUnit / free / setUncoalescable /
-clearUncoalescable` that the protocol allows returns `.ok`, its result is one of the answers
-`Runs.Pre` allows for `abs t`, `abs (t') = Runs.apply (abs t) op`, and `WF t'`; hence by induction
-every history of the concrete model is a history of `Mmtk.Runs` and inherits the theorems above.
-What ties the concrete model to the abstract one today is (i) the exact differential of the
-concrete model against both implementations (returned units, raw table dumps, sizes) and (ii) the
-abstract specification replayed as the oracle on the implementation's own answers.
+`Rel t a L` (`Lemmas/FreeListRel.lean`) is the table invariant together with the abstraction: the
+table `t` represents the abstract state `a`, with ghost lists `L k` (the run starts on the list of
+head `k`, in list order).  It says: `1 ≤ heads ≤ 128`, the array has `2 * (units + 1 + heads)` entries,
+`units ≤ MAX_UNITS`; the top sentinel and the heads are not free, the heads are not multi; the
+uncoalescable bit of every unit is `a.unc`; every run `[s, e)` of `a` has its MULTI flag and both
+size entries right (`get_size`, `get_left` read them), its FREE flag is `a.own s ≠ none`, its owner is
+constant, and a run owned by head `k` is a member of `L k`; and for every head `k` the next / prev
+links from the head through `L k` and back form a circular doubly-linked list (`Links`), without
+repetition, of runs owned by `k`.
+
+`abs` is a *relation* (`Abs H t a`), not a function: the abstract state has a ghost field
+(`touched`) that the table does not store, and the owner of a free run is the head whose list
+reaches it (not a field of the run).  `WF H t := ∃ a, Abs H t a`.
+
+For every operation the protocol (`Runs.Pre`) allows, the concrete method returns `.ok`, its answer
+is one the abstract specification allows, and the new table represents `Runs.apply a op`
+(`alloc_refines`, `allocFromUnit_refines`, `free_refines`, `setUnc_refines`, `clrUnc_refines`; both
+`debug` settings, i.e. no `debug_assert!` fires).  `history_refines`: every concrete history whose
+steps respect the protocol is an abstract history (`Runs.Reach`) and keeps `Abs`; hence the abstract
+theorems transfer: `concrete_history_no_overlap`, `concrete_history_conservation`.
 -/
+
+/-- The table (with `H` heads) represents the abstract state. -/
+def Abs (H : Int) (t : Tab) (a : Runs.AS) : Prop := t.heads = H ∧ ∃ L, Rel t a L
+
+/-- The table invariant. -/
+def WF (H : Int) (t : Tab) : Prop := ∃ a, Abs H t a
+
+open Mmtk.Runs in
+/-- **alloc_refines.** `alloc(n)` through head `k` on a well-formed table returns `.ok`; either it
+returns the start `s` of a free run `[s, e)` of head `k` that fits (an answer `Runs.Pre` allows) and the
+new table represents `apply a (alloc k s n e)`, or it returns `FAILURE`, the table is unchanged, and no
+run of head `k` fits. -/
+theorem alloc_refines {H : Int} {t : Tab} {a : AS} {k n : Nat} (debug : Bool)
+    (h : Abs H t a) (hk : (k : Int) < H) (hn : 1 ≤ n) :
+    (∃ (s e : Nat) (t' : Tab), alloc debug t (hd k) (n : Int) = .ok (t', (s : Int)) ∧ Pre a (.alloc k s n e) ∧
+      Abs H t' (Runs.apply a (.alloc k s n e))) ∨
+    (alloc debug t (hd k) (n : Int) = .ok (t, FAILURE) ∧ ¬ CanAlloc a k n) := by
+  obtain ⟨hH, L, hR⟩ := h
+  rcases alloc_refines_rel debug hR (by rw [hH]; exact hk) hn with ⟨s, e, t', L', h1, h2, h3, h4⟩ | h1
+  · exact Or.inl ⟨s, e, t', h1, h2, by rw [← hH, ← h4], L', h3⟩
+  · exact Or.inr h1
+
+open Mmtk.Runs in
+/-- **allocFromUnit_refines.** `alloc_from_unit(n, s)` on the start of a run `[s, e)`: if the run is
+free on the caller's head and fits it is taken (`Pre a (alloc k s n e)`), if it is allocated or too
+small the answer is `FAILURE` and the table is unchanged. -/
+theorem allocFromUnit_refines {H : Int} {t : Tab} {a : AS} {k s e n : Nat} (debug : Bool)
+    (h : Abs H t a) (hr : IsRun a s e) (hn : 1 ≤ n) :
+    (Pre a (.alloc k s n e) → ∃ t', allocFromUnit debug t (hd k) (n : Int) (s : Int) = .ok (t', (s : Int)) ∧
+      Abs H t' (Runs.apply a (.alloc k s n e))) ∧
+    ((a.own s = none ∨ e < s + n) → allocFromUnit debug t (hd k) (n : Int) (s : Int) = .ok (t, FAILURE)) := by
+  obtain ⟨hH, L, hR⟩ := h
+  obtain ⟨h1, h2⟩ := allocFromUnit_refines_rel (k := k) debug hR hr hn
+  refine ⟨fun hp => ?_, h2⟩
+  obtain ⟨t', L', g1, g2, g3⟩ := h1 hp.2.1 hp.2.2.2
+  exact ⟨t', g1, by rw [← hH, ← g3], L', g2⟩
+
+open Mmtk.Runs in
+/-- **free_refines.** `free(s, rcs)` through head `k` of an allocated run `[s, e)` (protocol
+`Runs.Pre`) returns `.ok`; the answer is the size of the freed run, or with `rcs` the size of the
+coalesced run `[l, r)` — where `l` is the start of the left neighbour iff `mergeL` (it is free and
+`s` carries no uncoalescable mark) and `r` the end of the right neighbour iff `mergeR`: the run
+coalesces exactly with those neighbours — and the new table represents `apply a (free k s e)`. -/
+theorem free_refines {H : Int} {t : Tab} {a : AS} {k s e : Nat} (debug rcs : Bool)
+    (h : Abs H t a) (hk : (k : Int) < H) (hp : Pre a (.free k s e)) :
+    ∃ (t' : Tab) (l r : Nat), free debug t (hd k) (s : Int) rcs = .ok (t', if rcs then (r : Int) - l else (e : Int) - s) ∧
+      Abs H t' (Runs.apply a (.free k s e)) ∧
+      (if mergeL a s then IsRun a l s else l = s) ∧ (if mergeR a e then IsRun a e r else r = e) ∧
+      IsRun (Runs.apply a (.free k s e)) l r := by
+  obtain ⟨hH, L, hR⟩ := h
+  obtain ⟨t', L', l, r, h1, h2, h3, h4, h5⟩ := free_refines_rel debug rcs hR (by rw [hH]; exact hk) hp
+  exact ⟨t', l, r, h1, ⟨by rw [← hH, ← h3], L', h2⟩, h4, h5, free_run_merged a hp.1 h4 h5⟩
+
+open Mmtk.Runs in
+/-- **setUnc_refines.** -/
+theorem setUnc_refines {H : Int} {t : Tab} {a : AS} {u : Nat} (h : Abs H t a) (hu : u ≤ a.units) :
+    ∃ t', setUncoalescable t (u : Int) = .ok t' ∧ Abs H t' (Runs.apply a (.setUnc u)) := by
+  obtain ⟨hH, L, hR⟩ := h
+  obtain ⟨h1, h2⟩ := setUnc_refines_rel hR hu
+  exact ⟨_, h1, by simpa using hH, L, h2⟩
+
+open Mmtk.Runs in
+/-- **clrUnc_refines.** -/
+theorem clrUnc_refines {H : Int} {t : Tab} {a : AS} {u : Nat} (h : Abs H t a) (hu : u ≤ a.units) :
+    ∃ t', clearUncoalescable t (u : Int) = .ok t' ∧ Abs H t' (Runs.apply a (.clrUnc u)) := by
+  obtain ⟨hH, L, hR⟩ := h
+  obtain ⟨h1, h2⟩ := clrUnc_refines_rel hR hu
+  exact ⟨_, h1, by simpa using hH, L, h2⟩
+
+/-- What the table says about a run of the abstract state it represents: `get_size` is its length,
+`get_free` is "owned by some head", and the run lies inside the list. -/
+theorem abs_reads {H : Int} {t : Tab} {a : Runs.AS} {s e : Nat} (h : Abs H t a) (hr : Runs.IsRun a s e) :
+    getSize t (s : Int) = .ok ((e : Int) - s) ∧ getFree t (s : Int) = .ok (a.own s).isSome ∧ e ≤ a.units := by
+  obtain ⟨hH, L, hR⟩ := h
+  have hlt := hR.run_lt hr
+  have ok := hR.run s e hr
+  have hpos := hR.hpos
+  have hsR : InR t (s : Int) := hR.inR_nat (by omega)
+  have hs1 : fMulti t (s : Int) = true → InR t ((s : Int) + 1) := by
+    intro hm; rw [ok.multi] at hm
+    have : s + 1 < e := by simpa using hm
+    exact hR.inR (by omega) (by omega)
+  refine ⟨?_, ?_, hlt.2⟩
+  · rw [getSize_ok hsR hs1, hR.sizeOf_run hr]
+  · rw [getFree_ok hsR, ok.free]
+
+/-! ### histories -/
+
+/-- One step of a concrete history that respects the callers' protocol: the concrete method returned
+`.ok`, and the abstract state moves by the abstract operation that the answer selects. `H` = number
+of heads. -/
+inductive CStep (debug : Bool) (H : Int) : Tab → Runs.AS → Tab → Runs.AS → Prop
+  | alloc {t a t'} (k n s e : Nat) : (k : Int) < H → alloc debug t (hd k) (n : Int) = .ok (t', (s : Int)) →
+      Runs.Pre a (.alloc k s n e) → CStep debug H t a t' (Runs.apply a (.alloc k s n e))
+  | allocFail {t a t'} (k n : Nat) : (k : Int) < H → 1 ≤ n → alloc debug t (hd k) (n : Int) = .ok (t', FAILURE) →
+      CStep debug H t a t' a
+  | allocFromUnit {t a t'} (k n s e : Nat) : allocFromUnit debug t (hd k) (n : Int) (s : Int) = .ok (t', (s : Int)) →
+      Runs.Pre a (.alloc k s n e) → CStep debug H t a t' (Runs.apply a (.alloc k s n e))
+  | allocFromUnitFail {t a t'} (k n s e : Nat) : Runs.IsRun a s e → (a.own s = none ∨ e < s + n) → 1 ≤ n →
+      allocFromUnit debug t (hd k) (n : Int) (s : Int) = .ok (t', FAILURE) → CStep debug H t a t' a
+  | free {t a t'} (k s e : Nat) (rcs : Bool) (r : Int) : (k : Int) < H → free debug t (hd k) (s : Int) rcs = .ok (t', r) →
+      Runs.Pre a (.free k s e) → CStep debug H t a t' (Runs.apply a (.free k s e))
+  | setUnc {t a t'} (u : Nat) : u ≤ a.units → setUncoalescable t (u : Int) = .ok t' →
+      CStep debug H t a t' (Runs.apply a (.setUnc u))
+  | clrUnc {t a t'} (u : Nat) : u ≤ a.units → Runs.Pre a (.clrUnc u) → clearUncoalescable t (u : Int) = .ok t' →
+      CStep debug H t a t' (Runs.apply a (.clrUnc u))
+
+/-- Concrete histories from `(t0, a0)`. -/
+inductive CReach (debug : Bool) (H : Int) (t0 : Tab) (a0 : Runs.AS) : Tab → Runs.AS → Prop
+  | init : CReach debug H t0 a0 t0 a0
+  | step {t a t' a'} : CReach debug H t0 a0 t a → CStep debug H t a t' a' → CReach debug H t0 a0 t' a'
+
+theorem ok_inj {α : Type} {x y : α} (h : (Except.ok x : M α) = .ok y) : x = y := by cases h; rfl
+
+open Mmtk.Runs in
+/-- **step_refines.** A protocol-respecting concrete step is an abstract step (or leaves the
+abstract state alone: a failed allocation), and the new table represents the new abstract state. -/
+theorem step_refines {debug : Bool} {H : Int} {t t' : Tab} {a a' : AS} (h : Abs H t a)
+    (hs : CStep debug H t a t' a') :
+    Abs H t' a' ∧ (a' = a ∨ ∃ op, Pre a op ∧ a' = Runs.apply a op) := by
+  cases hs with
+  | alloc k n s e hk hc hp =>
+    refine ⟨?_, Or.inr ⟨_, hp, rfl⟩⟩
+    rcases alloc_refines debug h hk hp.2.2.1 with ⟨s0, e0, t0, g1, g2, g3⟩ | ⟨g1, _⟩
+    · rw [g1] at hc
+      have e1 := ok_inj hc
+      have ht : t0 = t' := congrArg Prod.fst e1
+      have hs : s0 = s := by have := congrArg Prod.snd e1; simp at this; omega
+      subst ht hs
+      have : e0 = e := run_end_unique' a g2.1 hp.1
+      subst this
+      exact g3
+    · rw [g1] at hc
+      have := congrArg Prod.snd (ok_inj hc)
+      simp [FAILURE] at this
+  | allocFail k n hk hn hc =>
+    refine ⟨?_, Or.inl rfl⟩
+    rcases alloc_refines debug h hk hn with ⟨s0, e0, t0, g1, g2, g3⟩ | ⟨g1, _⟩
+    · rw [g1] at hc
+      have := congrArg Prod.snd (ok_inj hc)
+      simp [FAILURE] at this
+    · rw [g1] at hc
+      have ht : t = t' := congrArg Prod.fst (ok_inj hc)
+      subst ht
+      exact h
+  | allocFromUnit k n s e hc hp =>
+    refine ⟨?_, Or.inr ⟨_, hp, rfl⟩⟩
+    obtain ⟨t0, g1, g2⟩ := (allocFromUnit_refines debug h hp.1 hp.2.2.1).1 hp
+    rw [g1] at hc
+    have ht : t0 = t' := congrArg Prod.fst (ok_inj hc)
+    subst ht
+    exact g2
+  | allocFromUnitFail k n s e hr hf hn hc =>
+    refine ⟨?_, Or.inl rfl⟩
+    have g1 := (allocFromUnit_refines (k := k) debug h hr hn).2 hf
+    rw [g1] at hc
+    have ht : t = t' := congrArg Prod.fst (ok_inj hc)
+    subst ht
+    exact h
+  | free k s e rcs r hk hc hp =>
+    refine ⟨?_, Or.inr ⟨_, hp, rfl⟩⟩
+    obtain ⟨t0, l, r0, g1, g2, _⟩ := free_refines debug rcs h hk hp
+    rw [g1] at hc
+    have ht : t0 = t' := congrArg Prod.fst (ok_inj hc)
+    subst ht
+    exact g2
+  | setUnc u hu hc =>
+    refine ⟨?_, Or.inr ⟨.setUnc u, trivial, rfl⟩⟩
+    obtain ⟨t0, g1, g2⟩ := setUnc_refines h hu
+    rw [g1] at hc
+    have ht : t0 = t' := ok_inj hc
+    subst ht
+    exact g2
+  | clrUnc u hu hp hc =>
+    refine ⟨?_, Or.inr ⟨.clrUnc u, hp, rfl⟩⟩
+    obtain ⟨t0, g1, g2⟩ := clrUnc_refines h hu
+    rw [g1] at hc
+    have ht : t0 = t' := ok_inj hc
+    subst ht
+    exact g2
+
+open Mmtk.Runs in
+/-- **history_refines.** Every concrete history (any interleaving of `alloc`, `alloc_from_unit`,
+`free`, `set_uncoalescable`, `clear_uncoalescable` on any heads, each respecting `Runs.Pre`) is a
+history of the abstract specification, and the final table represents the final abstract state. -/
+theorem history_refines {debug : Bool} {H : Int} {t0 t : Tab} {a0 a : AS} (h0 : Abs H t0 a0)
+    (hr : CReach debug H t0 a0 t a) : Reach a0 a ∧ Abs H t a := by
+  induction hr with
+  | init => exact ⟨.init, h0⟩
+  | step _ hs ih =>
+    obtain ⟨g1, g2⟩ := step_refines ih.2 hs
+    refine ⟨?_, g1⟩
+    rcases g2 with rfl | ⟨op, hp, rfl⟩
+    · exact ih.1
+    · exact .step op ih.1 hp
+
+open Mmtk.Runs in
+/-- **concrete_history_no_overlap.** After any protocol-respecting concrete history from a fresh
+list, the runs recorded in the table — `get_size(s) = e - s`, `get_free(s) = (own s ≠ none)` for every
+run `[s, e)` — are pairwise disjoint and inside the list, and the owner (allocated / free on head `k`)
+is the same for all units of a run; in particular allocated runs never overlap and never exceed
+the list. -/
+theorem concrete_history_no_overlap {debug : Bool} {H : Int} {t0 t : Tab} {a0 a : AS} (h0 : Abs H t0 a0)
+    (hf : Fresh a0) (hr : CReach debug H t0 a0 t a) {s e s' e' : Nat} (h : IsRun a s e) (h' : IsRun a s' e')
+    (hlt : s < s') :
+    e ≤ s' ∧ e' ≤ a.units ∧ a.units = a0.units ∧
+    getSize t (s : Int) = .ok ((e : Int) - s) ∧ getSize t (s' : Int) = .ok ((e' : Int) - s') ∧
+    getFree t (s : Int) = .ok (a.own s).isSome ∧ getFree t (s' : Int) = .ok (a.own s').isSome ∧
+    (∀ u, s ≤ u → u < e → a.own u = a.own s) := by
+  obtain ⟨hreach, habs⟩ := history_refines h0 hr
+  obtain ⟨d1, _, d3⟩ := runs_disjoint a h h' hlt
+  have r1 := abs_reads habs h
+  have r2 := abs_reads habs h'
+  have inv := inv_reach hf hreach
+  refine ⟨d1, d3, inv.units, r1.1, r2.1, r1.2.1, r2.2.1, ?_⟩
+  obtain ⟨_, L, hR⟩ := habs
+  exact (hR.run s e h).own
+
+open Mmtk.Runs in
+/-- **concrete_history_conservation.** After any protocol-respecting concrete history from a fresh
+list, once every unit is free again every boundary still in the table carries an uncoalescable
+mark or is a pristine initial grain boundary, and no pristine boundary was lost; with a single
+initial run and no marks the table again holds the one free run of all units
+(`get_size(0) = units`, `get_free(0)`): nothing handed out is lost. -/
+theorem concrete_history_conservation {debug : Bool} {H : Int} {t0 t : Tab} {a0 a : AS} (h0 : Abs H t0 a0)
+    (hf : Fresh a0) (hr : CReach debug H t0 a0 t a) (hall : ∀ u, u < a.units → a.own u ≠ none) :
+    ((∀ b, 0 < b → b < a.units → a.cut b = true → a.unc b = true ∨ (a.touched b = false ∧ a0.cut b = true)) ∧
+     (∀ b, a.touched b = false → a0.cut b = true → a.cut b = true)) ∧
+    ((∀ b, 0 < b → b < a0.units → a0.cut b = false) → 0 < a0.units → (∀ b, a.unc b = false) →
+      getSize t 0 = .ok (a0.units : Int) ∧ getFree t 0 = .ok true) := by
+  obtain ⟨hreach, habs⟩ := history_refines h0 hr
+  refine ⟨free_all_coalesces hf hreach hall, fun hsingle hpos hnomark => ?_⟩
+  have hrun := free_all_restores_single_run hf hreach hsingle hpos hall hnomark
+  have hu := (inv_reach hf hreach).units
+  obtain ⟨r1, r2, _⟩ := abs_reads habs hrun
+  have hown : (a.own 0).isSome = true := by
+    have := hall 0 (by omega)
+    cases ho : a.own 0 with
+    | none => exact absurd ho this
+    | some j => rfl
+  rw [hown] at r2
+  refine ⟨?_, r2⟩
+  have : ((a.units : Nat) : Int) - ((0 : Nat) : Int) = (a0.units : Int) := by rw [hu]; omega
+  rw [← this]; exact r1
 
 /-- Witness that the protocol hypothesis of `Runs.Pre (.free …)` is needed: coalescing into a run
 that sits on another head's list (no uncoalescable mark in between) puts one run on two lists,
@@ -455,5 +736,119 @@ theorem cross_head_coalesce_double_allocates :
         let (_, y) ← alloc false t (-2) 10
         pure (a, b, m, x, y) : M _) = some (0, 5, 10, 0, 0) := by
   decide +kernel
+
+open Mmtk.Runs in
+/-- **new_refines_single.** `IntArrayFreeList::new(N, N, heads)` (one initial run: `grain = units`),
+for every `1 ≤ N ≤ MAX_UNITS` and `1 ≤ heads ≤ 128`, in both `debug` settings, returns `.ok` of a
+well-formed table that represents the fresh abstract state: all `N` units free on head 0's list in
+one run, nothing touched. -/
+theorem new_refines_single (debug : Bool) (N Hn : Nat) (hN : 1 ≤ N) (hNm : (N : Int) ≤ MAX_UNITS) (hH : 1 ≤ Hn)
+    (hH' : Hn ≤ 128) :
+    ∃ t0 a0, IntArray.new debug (N : Int) (N : Int) (Hn : Int) = .ok t0 ∧ Fresh a0 ∧ a0.units = N ∧
+      (∀ b, a0.cut b = false) ∧ Abs (Hn : Int) t0 a0 := by
+  obtain ⟨t0, a0, L, h1, h2, h3, h4, h5, h6⟩ := new_single debug N Hn hN hNm hH hH'
+  exact ⟨t0, a0, h1, ⟨h2.1, h2.2⟩, h3, h4, h6, L, h5⟩
+
+example : (1 : Nat) ≤ 4096 ∧ ((4096 : Nat) : Int) ≤ MAX_UNITS ∧ 1 ≤ 16 ∧ 16 ≤ 128 := by decide
+
+/-! ### the hypotheses are satisfiable: a concrete list and a two-step history -/
+
+section example_
+open Mmtk.Runs
+
+/-- the table `IntArrayFreeList::new(6, 3, 2)` builds -/
+def exT0 : Tab := { heads := 2, cells := #[1073741822, 1073741822, 3, 0, 3221225471, 2147483651, 0, 2147483651,
+  2147483648, 2147483651, 2147483648, 3221225471, 0, 2147483651, 2147483648, 2147483651, 6, 6] }
+/-- the fresh abstract state: 6 units, grain 3 -/
+def exA0 : AS := ⟨6, fun b => b == 3, fun _ => some 0, fun _ => false, fun _ => false⟩
+def exL0 : Nat → List Nat := fun k => if k = 0 then [0, 3] else []
+
+theorem exT0_new : okOf (IntArray.new true 6 3 2) = some exT0 := by decide +kernel
+
+theorem exA0_runs {s e : Nat} (h : IsRun exA0 s e) : (s = 0 ∧ e = 3) ∨ (s = 3 ∧ e = 6) := by
+  obtain ⟨h1, h2, h3, h4, h5⟩ := h
+  simp only [exA0, beq_iff_eq] at h2 h3 h4 h5
+  have := h5 3
+  simp at this
+  omega
+
+theorem exRun03 : IsRun exA0 0 3 :=
+  ⟨by decide, by decide, Or.inl rfl, Or.inr rfl, fun b h1 h2 => by simp [exA0]; omega⟩
+theorem exRun36 : IsRun exA0 3 6 :=
+  ⟨by decide, by decide, Or.inr rfl, Or.inl rfl, fun b h1 h2 => by simp [exA0]; omega⟩
+
+theorem exRel : Rel exT0 exA0 exL0 := by
+  constructor
+  · decide
+  · decide
+  · decide
+  · decide
+  · decide
+  · intro k hk
+    have : k = 0 ∨ k = 1 := by simp [exT0] at hk; omega
+    rcases this with rfl | rfl <;> decide
+  · intro k hk
+    have : k = 0 ∨ k = 1 := by simp [exT0] at hk; omega
+    rcases this with rfl | rfl <;> decide
+  · intro u hu
+    have : u = 0 ∨ u = 1 ∨ u = 2 ∨ u = 3 ∨ u = 4 ∨ u = 5 ∨ u = 6 := by simp [exA0] at hu; omega
+    rcases this with rfl | rfl | rfl | rfl | rfl | rfl | rfl <;> decide
+  · intro s e h
+    rcases exA0_runs h with ⟨rfl, rfl⟩ | ⟨rfl, rfl⟩
+    · refine ⟨by decide, fun _ => by decide, by decide, fun _ _ _ => rfl, fun k hk => ?_⟩
+      have : k = 0 := by simp [exA0] at hk; omega
+      subst this; exact ⟨by decide, Or.inl (by decide)⟩
+    · refine ⟨by decide, fun _ => by decide, by decide, fun _ _ _ => rfl, fun k hk => ?_⟩
+      have : k = 0 := by simp [exA0] at hk; omega
+      subst this; exact ⟨by decide, Or.inl (by decide)⟩
+  · intro k hk
+    have : k = 0 ∨ k = 1 := by simp [exT0] at hk; omega
+    rcases this with rfl | rfl
+    · refine ⟨?_, by decide, ?_⟩
+      · show Links exT0 (hd 0) (hd 0) [0, 3]
+        simp only [Links]; decide
+      · intro x hx
+        have : x = 0 ∨ x = 3 := by simpa [exL0] using hx
+        rcases this with rfl | rfl
+        · exact ⟨rfl, fun f => f, 3, exRun03⟩
+        · exact ⟨rfl, fun f => f, 6, exRun36⟩
+    · refine ⟨?_, by decide, ?_⟩
+      · show Links exT0 (hd 1) (hd 1) []
+        simp only [Links]; decide
+      · intro x hx
+        simp [exL0] at hx
+
+
+theorem exFresh : Fresh exA0 := ⟨fun _ => rfl, fun _ => rfl⟩
+theorem exAbs : Abs 2 exT0 exA0 := ⟨rfl, exL0, exRel⟩
+
+/-- `IntArrayFreeList::new(6, 3, 2)` (debug build) is well formed and represents the fresh abstract
+state (6 units, grain 3, everything on head 0's list); from it there is a two-step concrete history
+(allocate 2 units through head 0, free them again) that respects the protocol — the hypotheses of
+`alloc_refines`, `free_refines`, `step_refines`, `history_refines`, `concrete_history_no_overlap` and
+`concrete_history_conservation` hold for it. -/
+example : ∃ t0 a0, okOf (IntArray.new true 6 3 2) = some t0 ∧ Fresh a0 ∧ Abs 2 t0 a0 ∧ a0.units = 6 ∧
+    ∃ (s e : Nat) (t1 t2 : Tab), Pre a0 (.alloc 0 s 2 e) ∧ Pre (Runs.apply a0 (.alloc 0 s 2 e)) (.free 0 s (s + 2)) ∧
+      CReach true 2 t0 a0 t1 (Runs.apply a0 (.alloc 0 s 2 e)) ∧
+      CReach true 2 t0 a0 t2 (Runs.apply (Runs.apply a0 (.alloc 0 s 2 e)) (.free 0 s (s + 2))) := by
+  refine ⟨exT0, exA0, exT0_new, exFresh, exAbs, rfl, ?_⟩
+  rcases alloc_refines (k := 0) (n := 2) true exAbs (by decide) (by decide) with ⟨s, e, t1, h1, h2, h3⟩ | ⟨_, h2⟩
+  · have hpre : Pre (Runs.apply exA0 (.alloc 0 s 2 e)) (.free 0 s (s + 2)) := by
+      obtain ⟨m1, m2⟩ := alloc_makes_run exA0 0 s 2 e h2
+      refine ⟨m1, m2 s (Nat.le_refl _) (by omega), ?_, ?_⟩
+      · intro hm
+        have := hm.1
+        have c : ¬ (s ≤ s - 1 ∧ s - 1 < s + 2) := by omega
+        simp only [Runs.apply, c, if_false]; rfl
+      · intro _
+        have c : ¬ (s ≤ s + 2 ∧ s + 2 < s + 2) := by omega
+        simp only [Runs.apply, c, if_false]; rfl
+    obtain ⟨t2, l, r, g1, _⟩ := free_refines true true h3 (by decide) hpre
+    have s1 : CReach true 2 exT0 exA0 t1 (Runs.apply exA0 (.alloc 0 s 2 e)) :=
+      .step .init (.alloc 0 2 s e (by decide) h1 h2)
+    exact ⟨s, e, t1, t2, h2, hpre, s1, .step s1 (.free 0 s (s + 2) true _ (by decide) g1 hpre)⟩
+  · exact absurd ⟨0, 3, exRun03, rfl, by decide⟩ h2
+
+end example_
 
 end Mmtk.FreeList
